@@ -157,6 +157,10 @@ class Config(_mixins.CodeMixin):
     def seed_sequence(self, value: Any) -> None:
         self._seed_sequence = value
         self.rng = np.random.default_rng(self._seed_sequence)
+        # NOTE: Sampling from probability maps uses this generator instead of the
+        # process-global `random` module, so that seeded simulations do not depend on
+        # what the rest of the process does with the global generator.
+        self._random = random.Random(self._seed_sequence)
         random.seed(self._seed_sequence)
 
     @property
@@ -180,6 +184,7 @@ class Config(_mixins.CodeMixin):
         # NOTE: We want to preserve the RNG, otherwise simulations may lead to repeated
         # samples if the user reuses the simulator.
         config_copy.rng = self.rng
+        config_copy._random = self._random
 
         return config_copy
 
